@@ -8,6 +8,8 @@ import (
 	"bytes"
 	"encoding/json"
 	"os"
+
+	"github.com/cnotch/ipchub/utils/vhook"
 )
 
 // EncodeJSONFile 编码 JSON 文件
@@ -29,16 +31,22 @@ func EncodeJSONFile(path string, obj interface{}) error {
 		return err
 	}
 
+	vhook.At("json.opened", path)
+	vhook.At("json.write", [2]interface{}{f, formatted.Bytes()})
 	if _, err = f.Write(formatted.Bytes()); err == nil {
+		vhook.At("json.written", path)
 		err = f.Sync()
+		vhook.At("json.synced", path)
 	}
 	if cerr := f.Close(); err == nil {
 		err = cerr
 	}
+	vhook.At("json.closed", path)
 	if err != nil {
 		os.Remove(tmp)
 		return err
 	}
 
+	defer vhook.At("json.renamed", path)
 	return os.Rename(tmp, path)
 }
